@@ -187,3 +187,47 @@ class ChunkCacheSize(Contract):
 
     def post(self, c, a, result):
         c.ensure(ops_cmp('>=', result, 2), 'at_least_2')
+
+
+# ---------------------------------------------------------------------------------------------
+# coordinate lookups (C02 / C05 / C14): line number / sample time -> ordinal on a regular axis
+
+from pyvc.npmodel import SArray as _SArray      # noqa: E402
+from . import objects as _O      # noqa: E402
+
+
+class CoordToIndex(Contract):
+    """coord_to_index(coord, axis) on a regular integer axis a0 + k*d (d != 0, n >= 2): returns the k with axis[k] == coord;
+    IndexError iff coord is not a value of the axis -- except that with include_stop the value one step past the end gives n"""
+    include_stop = False
+    may_raise = ()
+
+    def inputs(self, c):
+        n = c.sym_int('n', lo=2, name='axis_length')
+        ax = _O.axis_array(c, 'axis', n)
+        return dict(coord=c.sym_int('coord', name='coord'), coords=ax, include_stop=self.include_stop, _n=n, _ax=ax.prog)
+
+    def on_axis(self, a):
+        a0, d = a['_ax']
+        rel = ops_binop('-', a['coord'], a0)
+        k = ops_binop('//', rel, d)
+        return And(ops_cmp('==', ops_binop('%', rel, d), 0), ops_cmp('>=', k, 0), ops_cmp('<', k, a['_n'])), k
+
+    def raises(self, c, a):
+        on, k = self.on_axis(a)
+        a0, d = a['_ax']
+        past = ops_cmp('==', a['coord'], ops_binop('+', a0, ops_binop('*', a['_n'], d)))
+        if self.include_stop:
+            return {'IndexError': And(Not(on), Not(past))}
+        return {'IndexError': Not(on)}
+
+    def post(self, c, a, result):
+        a0, d = a['_ax']
+        on, k = self.on_axis(a)
+        c.ensure(Implies(on, And(ops_cmp('>=', result, 0), ops_cmp('<', result, a['_n']), ops_cmp('==', ops_binop('+', a0, ops_binop('*', result, d)), a['coord']))), 'index_of_the_coordinate')
+        if self.include_stop:
+            c.ensure(Implies(Not(on), ops_cmp('==', result, a['_n'])), 'one_step_past_the_end_gives_the_length')
+
+
+for _is in (False, True):
+    fuc('utils.py::coord_to_index', props=['C02', 'C05', 'C14', 'C10'])(type('CoordToIndex' + ('Stop' if _is else ''), (CoordToIndex,), dict(include_stop=_is, variant=f'include_stop={_is}')))
